@@ -5,10 +5,15 @@
      end of the intact file, every strict prefix ends in failure                      : C15_prefix
    * a failed load leaves the receiver unchanged                                      : C15_atomic
    * without a `path` argument the directory is the current one at the time of the call : C15_location
+   * the shape of `Wavefunction.read` / `save` regenerated from the source on every run meets the premises of
+     the theorems above: one `pickle.load`, outside any loop, before the first store into the receiver; one
+     `pickle.dump`, no store into the receiver; `path` defaults to `None` and the directory is read in the body
+                                                                                       : C15_shape_read, C15_shape_save
   (the earlier default `path=os.getcwd()` — evaluated at import — was a genuine defect, repaired by a
    fix: commit; the chdir histories of the correspondence replay it).
 -/
 import FqeVerif.Model.Persist
+import FqeVerif.Generated.PersistShape
 namespace C15
 open Model
 
@@ -79,5 +84,47 @@ theorem C15_atomic {W D : Type} (assign : W → D → W) (w : W) :
 theorem C15_location (path : Option String) (cwdImport cwdCall : String) :
     resolveDir path cwdImport cwdCall = (match path with | some p => p | none => cwdCall) := by
   cases path <;> rfl
+
+/-! ### shape of the real `read` / `save` (harness/translate/persist.py) -/
+
+/-- nesting depth of loops at each event -/
+def depths : List (String × String) → Nat → List ((String × String) × Nat)
+  | [], _ => []
+  | e :: rest, d =>
+    if e.1 = "loop{" then depths rest (d + 1)
+    else if e.1 = "}" then depths rest (d - 1)
+    else (e, d) :: depths rest d
+
+/-- exactly one `load`, at loop depth 0, no store into the receiver before it, `path=None` default, and the
+    current directory read in the body before the load -/
+def readShapeOk (ev : List (String × String)) : Bool :=
+  let ds := depths ev 0
+  (ds.filter (fun x => x.1.1 == "load")).length == 1 &&
+  ds.all (fun x => x.1.1 != "load" || x.2 == 0) &&
+  ((ds.takeWhile (fun x => x.1.1 != "load")).all (fun x => x.1.1 != "assign")) &&
+  ev.contains ("default", "path=None") && (ev.takeWhile (fun e => e.1 != "load")).contains ("cwd", "")
+
+/-- exactly one `dump`, no store into the receiver, directory resolved at call time -/
+def saveShapeOk (ev : List (String × String)) : Bool :=
+  (ev.filter (fun e => e.1 == "dump")).length == 1 && ev.all (fun e => e.1 != "assign") &&
+  ev.contains ("default", "path=None") && (ev.takeWhile (fun e => e.1 != "dump")).contains ("cwd", "")
+
+/-- the source of `Wavefunction.read` as it is now: load once, then assign (the premise of `C15_atomic`), default
+    directory taken from `os.getcwd()` inside the body (the premise of `C15_location`) -/
+theorem C15_shape_read : readShapeOk GenPersist.readEvents = true ∧
+    GenPersist.readEvents = [("default", "path=None"), ("cwd", ""), ("open", "'r+b'"), ("load", ""),
+      ("assign", "self._symmetry_map"), ("assign", "self._conserved"), ("assign", "self._conserve_spin"),
+      ("assign", "self._conserve_number"), ("assign", "self._norb"), ("loop{", ""), ("assign", "self._civec"), ("}", "")] := by
+  decide
+
+theorem C15_shape_save : saveShapeOk GenPersist.saveEvents = true ∧
+    GenPersist.saveEvents = [("default", "path=None"), ("loop{", ""), ("}", ""), ("cwd", ""), ("open", "'w+b'"), ("dump", "")] := by
+  decide
+
+/-- the checker is not vacuous: a streamed reader (load inside a loop, stores before the last load) and a
+    default evaluated at import are rejected -/
+example : readShapeOk [("default", "path=None"), ("cwd", ""), ("open", "'r+b'"), ("load", ""), ("assign", "self._norb"),
+      ("loop{", ""), ("load", ""), ("assign", "self._civec"), ("}", "")] = false ∧
+    readShapeOk [("default", "path=os.getcwd()"), ("open", "'r+b'"), ("load", ""), ("assign", "self._norb")] = false := by decide
 
 end C15
